@@ -547,6 +547,15 @@ func TestC01(t *testing.T) {
 	for i := 0; n >= 100 && i < 4+n/150; i++ { // none on a replay (n = 0)
 		hs = append(hs, genRacing(racingRng.Fork(), 200))
 	}
+	// the process concurrency the service is built with: 1 in every test of the repository, the number of
+	// cores in main.go.  Drawn from a stream of its own (the histories of a seed stay what they were); the
+	// unchanged attester ignores the value, so the expected outcome does not depend on it.
+	concRng := NewRand(Seed() ^ 0x636f6e63)
+	for k := ncorpus; k < len(hs); k++ {
+		if c := concRng.Intn(10); c >= 4 {
+			hs[k].History.Conc = []int64{2, 2, 3, 4, 8, 16}[c-4]
+		}
+	}
 	for k, yh := range hs {
 		h := yh.History
 		var obs Observed
@@ -574,6 +583,7 @@ func TestC01(t *testing.T) {
 			col.Stats.Dist["gated:switch-points-reached"] += ys.Points
 			col.Stats.Dist["gated:log-lines-inside-critical-section"] += ys.InLock
 			col.Stats.Dist["gated:switches"] += ys.Switches
+			col.Stats.Dist["gated:points-on-goroutines-of-the-code's-own-making"] += ys.Foreign
 		} else {
 			if ties, _ := TieInstants(h); len(ties) > 0 {
 				t.Fatalf("history %d has tied wake-ups but is not gated", k)
@@ -588,6 +598,7 @@ func TestC01(t *testing.T) {
 			col.Count("family:" + x)
 		}
 		col.Count(fmt.Sprintf("runs:%d", len(h.Runs)))
+		col.Count(fmt.Sprintf("process-concurrency:%d", h.Concurrency()))
 		for _, r := range h.Runs {
 			col.Count("data:" + dataKind(h.SPE, r))
 			if r.Script.AccountsErr {
@@ -612,7 +623,7 @@ func TestC01(t *testing.T) {
 		h.Tags = tg
 		yh.History = h
 		id := col.NextID()
-		col.Add(Case{Term: Term(id, h, obs), Key: fmt.Sprintf("%v", h.Runs) + fmt.Sprint(h.SPE, yh.Gated, yh.Turns), Nontrivial: nt, Tags: tg,
+		col.Add(Case{Term: Term(id, h, obs), Key: fmt.Sprintf("%v", h.Runs) + fmt.Sprint(h.SPE, yh.Gated, yh.Turns, h.Conc), Nontrivial: nt, Tags: tg,
 			Sample: map[string]any{"input": yh, "observed": obs}})
 	}
 	if err := col.Flush(); err != nil {
